@@ -237,9 +237,24 @@ func runCheck(args []string) int {
 				fmt.Println(r.Err)
 				return 2
 			}
-			fmt.Printf("TOOLING-ERROR: %s: %s\n", r.Name, r.Err)
-			toolErr = true
-			continue
+			if strings.HasPrefix(r.Err, "outside-subset") && p.cs.Funcs[r.Name] != nil && !strings.HasPrefix(r.Name, "lemma") {
+				// a function under contract was rewritten with a construct the generator does not model: its
+				// obligations can no longer be generated, so none of them is discharged. Reported as one
+				// undischarged obligation (the replay search still runs the real function against the contract).
+				fc := p.cs.Funcs[r.Name]
+				tags := []string{}
+				if fc.allTags()[id] {
+					tags = []string{id}
+				}
+				r.Obls = append(r.Obls, &Obl{ID: 1, Name: fmt.Sprintf("%s/unverifiable[%s]", r.Name, r.Err), Kind: "unverifiable", Tags: tags, Func: r.Name,
+					Result: "unknown", Model: "the verification conditions of this function cannot be generated any more: " + r.Err})
+				r.Cases = 1
+				r.Err = ""
+			} else {
+				fmt.Printf("TOOLING-ERROR: %s: %s\n", r.Name, r.Err)
+				toolErr = true
+				continue
+			}
 		}
 		leaf += r.Cases
 		for _, o := range r.Obls {
